@@ -17,6 +17,15 @@ wt = tempfile.mkdtemp(prefix='pfst_seed_', dir='/tmp'); os.rmdir(wt)
 subprocess.check_call(['git', '-C', '/repo', 'worktree', 'add', '-q', '--detach', wt, 'HEAD'])
 meta = {'name': name, 'breaks': prop, 'needs': needs, 'ran': []}
 try:
+    old = json.load(open(f'{out}/meta.json'))
+    if 'suite_with_patch' in old and not suite:
+        meta['suite_with_patch'] = old['suite_with_patch']
+    if needs in ('', '-', 'x', 'see DESIGN') and old.get('needs'):
+        meta['needs'] = old['needs']
+except Exception:
+    pass
+vout = tempfile.mkdtemp(prefix='pfst_seedout_', dir='/tmp')
+try:
     env = dict(os.environ, PYTHONPATH=f'{wt}/src')
     # demo path rewrite: demos reference their own worktree path sometimes
     dsrc = open(f'{out}/demo.py').read()
@@ -32,16 +41,17 @@ try:
     if suite:
         t = subprocess.run(['/venv/bin/python', '-m', 'pytest', '-q', '-p', 'no:cacheprovider', '--timeout=900'], cwd=wt, env=env, capture_output=True, text=True)
         meta['suite_with_patch'] = t.stdout.strip().splitlines()[-1] if t.stdout.strip() else t.stderr[-200:]
-    meta['confirmed'] = meta['demo_without_patch_rc'] == 0 and meta['demo_with_patch_rc'] != 0 and meta['patch_applies'] and (not suite or '304 passed' in meta.get('suite_with_patch', '') and '3 failed' in meta.get('suite_with_patch', ''))
+    meta['confirmed'] = meta['demo_without_patch_rc'] == 0 and meta['demo_with_patch_rc'] != 0 and meta['patch_applies'] and ('suite_with_patch' not in meta or '304 passed' in meta['suite_with_patch'] and '3 failed' in meta['suite_with_patch'])
     for c in checks.split(','):
         for seed in os.environ.get('SEEDS', '0').split(','):
-            e = dict(os.environ, VERIF_REPO_SRC=f'{wt}/src', VERIF_SEED=seed)
+            e = dict(os.environ, VERIF_REPO_SRC=f'{wt}/src', VERIF_SEED=seed, VERIF_OUT=vout)
             r = subprocess.run(['/verif/check', c, '--tier', 'quick', '--seed', seed], env=e, capture_output=True, text=True)
             keys = sorted({l.split('::')[0].strip()[4:] for l in r.stdout.splitlines() if l.strip().startswith('key=')})
             meta['ran'].append({'check': c, 'seed': int(seed), 'exit': r.returncode, 'violation_keys': keys[:8]})
             print(f'  {name}: check {c} seed {seed} -> exit {r.returncode} {keys[:4]}')
 finally:
     subprocess.call(['git', '-C', '/repo', 'worktree', 'remove', '--force', wt])
+    shutil.rmtree(vout, ignore_errors=True)
 meta['caught_by'] = sorted({x['check'] for x in meta['ran'] if x['exit'] == 1})
 json.dump(meta, open(f'{out}/meta.json', 'w'), indent=1)
 print(json.dumps({k: meta[k] for k in ('name', 'confirmed', 'demo_without_patch_rc', 'demo_with_patch_rc', 'caught_by') if k in meta}), meta.get('suite_with_patch', ''))
